@@ -63,12 +63,14 @@ class Disp:
 
 
 def gen_tree(rng, depth):
-    kind = rng.choice(["scope", "ascope", "updated", "adisp"]) if depth > 0 else "leaf"
+    kind = rng.choice(["scope", "ascope", "updated", "adisp", "prepared", "aprepared"]) if depth > 0 else "leaf"
     if kind == "leaf" or depth == 0:
         return ("leaf",)
     n = rng.randint(0, 3)
     supplied = [rng.choice(TYPES)(v=rng.randint(1, 99)) for _ in range(n)]
     disp = [rng.choice(TYPES)(v=rng.randint(100, 199)) for _ in range(rng.randint(0, 2))] if kind == "adisp" else []
+    if kind in ("prepared", "aprepared"):      # scope object made first, entered later inside a further update block
+        disp = [rng.choice(TYPES)(v=rng.randint(200, 299)) for _ in range(rng.randint(1, 2))]
     kids = [gen_tree(rng, depth - 1) for _ in range(rng.randint(1, 2))]
     return (kind, supplied, disp, kids)
 
@@ -110,15 +112,33 @@ async def walk(node, env, problems, rng, path):
         return
     kind, supplied, disp, kids = node
     frame = {}
-    for s in supplied + disp:
-        frame[type(s)] = s
-    new_env = env + [frame]
+    if kind in ("prepared", "aprepared"):
+        between = {}
+        for s in disp:
+            between[type(s)] = s
+        for s in supplied:
+            frame[type(s)] = s
+        new_env = env + [between, frame]
+    else:
+        for s in supplied + disp:
+            frame[type(s)] = s
+        new_env = env + [frame]
 
     async def inside():
         for i, k in enumerate(kids):
             await walk(k, new_env, problems, rng, f"{path}/{kind}{i}")
             probe(new_env, problems, rng, f"{path}/{kind}:between{i}")
-    if kind == "scope":
+    if kind == "prepared":
+        sc = ctx.scope("s", *supplied)           # made here ...
+        with ctx.updated(*disp):
+            with sc:                             # ... entered inside a block that did not exist yet
+                await inside()
+    elif kind == "aprepared":
+        sc = ctx.scope("s", *supplied)
+        with ctx.updated(*disp):
+            async with sc:
+                await inside()
+    elif kind == "scope":
         with ctx.scope("s", *supplied):
             await inside()
     elif kind == "ascope":
